@@ -180,8 +180,26 @@ def run(ctx):
                     vfs.add(e.elts[0].value)
     ctx.check("R3-missing-keys-computed", w2, {"texts", "inventories", "revisions", "signatures", "chk_bytes"} <= vfs, f"compression parents are checked for {sorted(vfs)}")
 
+    # ---- R5: the 'same repository, nothing to fetch' shortcut needs equal fallback lists, lengths included -----------
+    for rel_, cls_ in (("breezy/repository.py", "Repository"), ("breezy/bzr/remote.py", "RemoteRepository")):
+        fsf = repo.func(rel_, f"{cls_}._has_same_fallbacks")
+        wsf = f"{rel_}:{cls_}._has_same_fallbacks"
+        zips = [c for c in calls_in(fsf) if norm(c.func) == "zip"]
+        strict = any(any(k.arg == "strict" and norm(k.value) == "True" for k in c.keywords) for c in zips)
+        lens = [n for n in ast.walk(fsf) if isinstance(n, ast.Compare) and len(n.ops) == 1 and isinstance(n.ops[0], (ast.NotEq, ast.Eq)) and norm(n.left).startswith("len(") and norm(n.comparators[0]).startswith("len(")]
+        gsf = build_cfg(fsf)
+        ok = bool(zips) and (strict or bool(lens))
+        if ok and lens and not strict:
+            t_ = [n.id for n in gsf.nodes if n.kind == "test" and any(x is lens[0] for x in ast.walk(n.ast))]
+            z_ = [n.id for n in gsf.nodes if any(norm(c.func) == "zip" for c in n.calls())]
+            ok = bool(t_) and gsf.always_before(t_, z_)[0]
+        ctx.check("R5-same-fallbacks-compares-lengths", wsf, ok, "the fallback lists are compared in length before they are compared pairwise with zip() (zip stops at the shorter list)", message=f"{cls_}._has_same_fallbacks compares the fallback lists with zip() only: a repository opened without its fallbacks 'has the same fallbacks' as the stacked view of the same location, so fetch() between the two takes the nothing-to-do shortcut and the revisions that live in the stacked-on repository are never copied")
+    ffetch = repo.func("breezy/repository.py", "Repository.fetch")
+    same = [n for n in ast.walk(ffetch) if isinstance(n, ast.If) and "has_same_location" in norm(n.test)]
+    ctx.check("R5-same-fallbacks-compares-lengths", "breezy/repository.py:Repository.fetch", len(same) >= 1 and all("_has_same_fallbacks" in norm(n.test) for n in same), "Repository.fetch takes the same-location shortcut only when the fallbacks are the same too")
 
 MUTANTS = [
+    Mutant("fallback lists compared with zip only", "breezy/repository.py", "        if len(my_fb) != len(other_fb):\n            return False\n", "", expect="R5-same-fallbacks-compares-lengths"),
     Mutant("source yields a kind the sink does not know", VF, "                raise AssertionError(f\"kaboom! {substream_type}\")", "                raise AssertionError(f\"kaboom! {substream_type}\")\n        if False:\n            yield (\"texts2\", None)", neutral=True, note="not in a StreamSource"),
     Mutant("sink loses the signatures arm", VF, "            elif substream_type == \"signatures\":\n                self.target_repo.signatures.insert_record_stream(substream)\n", "", expect="R1-kinds-dispatched"),
     Mutant("commit before testing missing_keys", VF, "                if missing_keys:\n                    # suspend the write group and tell the caller what we is", "                if missing_keys and not is_resume:\n                    # suspend the write group and tell the caller what we is", expect="R3-missing-keys-gate"),
